@@ -163,15 +163,89 @@ def split_resp(resp: str):
 # ---------------------------------------------------------------------------------------------
 # real side
 
-def make_record(n: int, ptr: int, rows, dt: float):
-    """RecordTensor with recordsz n, pointer ptr, storage rows `rows` (n x P), via public calls."""
+HIST_DT_POOL = [0.25, 0.5, 1.0, 2.0, 4.0, 0.3, 1.3]
+
+
+def duration_for(dt: float, n: int, inclusive: bool) -> float:
+    """a duration for which the documented size formula max(ceil(T/dt) + [incl], 1) gives n (half a step of slack)"""
+    return max(float(dt) * (n - 1.5), 0.0) if inclusive else float(dt) * (n - 0.5)
+
+
+def random_history(rng, dt: float, n: int, kind: str | None = None):
+    """A way of REACHING the configuration (step time dt, record size n) other than constructing it: the record is
+    created with other settings and its public attributes dt / duration / inclusive are re-assigned (as the reducer /
+    synapse dt setters do), possibly with pushes in between.  The property speaks about the record's current dt and N
+    only, so every history must behave like the freshly constructed record.
+    kinds: `<attr>-only` = created with the final values of the other two, one assignment; `<attr>-last` = all
+    three re-assigned (plus random intermediate values), <attr> last; `mixed` = random order"""
+    kind = kind or rng.choice(["dt-only", "dt-only", "duration-only", "inclusive-only", "dt-last", "duration-last",
+                               "inclusive-last", "mixed"])
+    incl = rng.random() < 0.5
+    dur = duration_for(dt, n, incl)
+    dt0 = rng.choice([d for d in HIST_DT_POOL if d != dt])
+    n0 = rng.choice([k for k in range(1, 10) if k != n])
+    incl0 = rng.random() < 0.5
+    final = {"dt": float(dt), "duration": dur, "inclusive": incl}
+    steps = []
+
+    def maybe_push(p):
+        if rng.random() < p:
+            steps.append(["push", rng.randint(1, 3)])
+
+    if kind.endswith("-only"):
+        attr = kind[:-5]
+        other = {"dt": dt0, "duration": duration_for(dt, n0, incl), "inclusive": not incl}[attr]
+        start = dict(final, **{attr: other})
+        maybe_push(0.5)
+        steps.append([attr, final[attr]])
+    else:
+        start = {"dt": dt0, "duration": duration_for(dt0, n0, incl0), "inclusive": incl0}
+        for _ in range(rng.randint(0, 2)):           # intermediate values
+            a = rng.choice(["dt", "duration", "inclusive"])
+            d_ = rng.choice(HIST_DT_POOL)
+            steps.append([a, {"dt": d_, "duration": duration_for(d_, rng.randint(1, 9), rng.random() < 0.5),
+                              "inclusive": rng.random() < 0.5}[a]])
+            maybe_push(0.3)
+        order = ["dt", "duration", "inclusive"]
+        rng.shuffle(order)
+        if kind != "mixed":
+            attr = kind[:-5]
+            order.remove(attr)
+            order.append(attr)
+        for a in order:
+            maybe_push(0.3)
+            steps.append([a, final[a]])
+    return {"kind": kind, "create": [start["dt"], start["duration"], start["inclusive"]], "steps": steps}
+
+
+def make_record(n: int, ptr: int, rows, dt: float, history=None):
+    """RecordTensor with recordsz n, pointer ptr, storage rows `rows` (n x P), via public calls.
+    `history` (see `random_history`): reach (dt, n) through re-assignment of dt / duration / inclusive instead."""
     P = len(rows[0])
     owner = inferno.Module()
-    RecordTensor.create(owner, "rec", float(dt), max(float(dt) * (n - 1.5), 0.0), torch.zeros(P, dtype=T64), inclusive=True)
-    rt = owner.rec
+    if history is None:
+        RecordTensor.create(owner, "rec", float(dt), max(float(dt) * (n - 1.5), 0.0), torch.zeros(P, dtype=T64), inclusive=True)
+        rt = owner.rec
+    else:
+        dt0, dur0, incl0 = history["create"]
+        RecordTensor.create(owner, "rec", float(dt0), float(dur0), torch.zeros(P, dtype=T64), inclusive=bool(incl0))
+        rt = owner.rec
+        for attr, v in history["steps"]:
+            if attr == "dt":
+                rt.dt = float(v)
+            elif attr == "duration":
+                rt.duration = float(v)
+            elif attr == "inclusive":
+                rt.inclusive = bool(v)
+            elif attr == "push":
+                for j in range(int(v)):
+                    rt.push(torch.full((P,), float(j + 1), dtype=T64))
+            else:
+                raise AssertionError(attr)
+        assert rt.dt == float(dt), (rt.dt, dt)
     assert rt.recordsz == n, (rt.recordsz, n)
-    if ptr:
-        rt.incr(ptr)
+    if (ptr - rt.pointer) % n:
+        rt.incr((ptr - rt.pointer) % n)
     assert rt.pointer == ptr
     for i in range(n):
         rt.write(torch.tensor(rows[i], dtype=T64), offset=(ptr - i) % n, inplace=True)
@@ -180,9 +254,10 @@ def make_record(n: int, ptr: int, rows, dt: float):
 
 
 class Real:
-    def __init__(self):
+    def __init__(self, history=None):
         self.rt = None
         self.mode = "Q"
+        self.history = history
 
     def exec(self, line):
         tok = line.split()
@@ -205,7 +280,7 @@ class Real:
             n, ptr, P = int(tok[2]), int(tok[3]), int(tok[4])
             rows = [[float(num_p(m, v)) for v in r.split(",")] for r in tok[5].split("|")]
             dt = float(num_p(m, tok[6]))
-            self.owner, self.rt = make_record(n, ptr, rows, dt)
+            self.owner, self.rt = make_record(n, ptr, rows, dt, self.history)
             self.n, self.P = n, P
             return "ok"
         rt = self.rt
@@ -530,6 +605,55 @@ def nondyadic_cases(rng, count):
     return out
 
 
+def limit_probe_cases(rng, maxn):
+    """exact mode, for records whose configuration is about to be reached by re-assignment: every dyadic dt, every
+    2 <= n <= maxn; scalar and tensor selects and inserts at both range limits, +-tol around them, a quarter / half /
+    whole step inside and beyond the upper one (on and off the grid), every rational kernel in rotation"""
+    out = []
+    for dt in (0.25, 0.5, 1.0, 2.0):
+        for n in range(2, maxn + 1):
+            for tol in (0.0, 0.125):
+                ptr = rng.randrange(n)
+                P = 2
+                d, tl = Fraction(dt), Fraction(tol)
+                hi = d * (n - 1)
+                eps = Fraction(1, 64)
+                times = [Fraction(0), -tl, -tl - eps, hi, hi + tl, hi + tl + eps, hi - tl, hi - d / 4, hi - d / 2, hi - d,
+                         hi + d / 4, hi + d / 2, hi + d, hi + 2 * d, hi + d * (n - 1), hi - d * 3 / 8, hi / 2, hi * 2,
+                         hi + d * 3, hi - eps, hi + eps if tl > 0 else hi + 2 * eps]
+                off = rng.choice([1, 0, 2, -1])
+                rows = ring_rows(rng, n, P, "Q")
+                ops = [begin_line("Q", n, ptr, rows, dt)]
+                for i, t in enumerate(times):
+                    ops.append(sel_s("Q", RAT_INTERP[i % 4], "-", dt, tol, t, off))
+                    ops.append(sel_t("Q", RAT_INTERP[(i + 1) % 4], "-", dt, tol, off, 0, [t, times[(i * 5 + 2) % len(times)]]))
+                    ops.append(sel_t("Q", RAT_INTERP[(i + 2) % 4], "-", dt, tol, off, 2, [Fraction(0), t, hi, t]))
+                out.append(case(ops, 0.0, "reconfigured"))
+                for i, t in enumerate(times):
+                    name = RAT_EXTRAP[(i + n) % len(RAT_EXTRAP)]
+                    obs = [rng.randint(-40, 40) / 8 for _ in range(P)]
+                    ops = [begin_line("Q", n, ptr, rows, dt)]
+                    if i % 2:
+                        ops.append(ins_s("Q", name, "-", "N", dt, tol, off, rng.random() < 0.5, t, obs))
+                    else:
+                        ops.append(ins_t("Q", name, "-", "N", dt, tol, off, rng.random() < 0.5, [t, rng.choice(times)], obs))
+                    ops.append("dump")
+                    out.append(case(ops, 1e-12 if name in INEXACT_EXTRAP else 0.0, "reconfigured"))
+    return out
+
+
+def attach_histories(rng, cases, stream="reconfigured"):
+    """the same protocol text, but the real record reaches the (dt, n) of its `begin` line through re-assignment of
+    dt / duration / inclusive after construction (the driver sees the resulting dt and n only: the specification is a
+    function of the record's CURRENT step time and size)"""
+    for c in cases:
+        tok = c["ops"][0].split()
+        mode, n, dt = tok[1], int(tok[2]), float(num_p(tok[1], tok[6]))
+        c["history"] = random_history(rng, dt, n)
+        c["stream"] = stream
+    return cases
+
+
 def corpus_cases():
     d = Path(__file__).resolve().parent.parent.parent / "corpus" / "C02"
     out = []
@@ -547,8 +671,8 @@ def corpus_cases():
 # ---------------------------------------------------------------------------------------------
 # running cases
 
-def exec_real(ops):
-    ex = Real()
+def exec_real(ops, history=None):
+    ex = Real(history)
     out = []
     for line in ops:
         try:
@@ -590,19 +714,37 @@ def shrink(ctx, c, kind, max_tries=8):
     """the failing op is last; first try begin + that op alone (selects do not change the state),
     then begin + the last two / three ops, then greedy one-op deletion"""
     ops = list(c["ops"])
+    hist = c.get("history")
 
-    def fails(cand):
+    def fails(cand, h=None):
+        h = h if h is not None else hist
         cc = dict(c, ops=cand)
-        real = exec_real(cand)
+        real = exec_real(cand, h)
         resp = ctx.run_driver(DRIVER, cand)
         d = compare_case(cc, real, resp)
         return d is not None and d[1] == kind and not protocol_failure(d) and d[0] == len(cand) - 1
+
+    def shrink_history(c2):
+        """drop re-assignment steps one at a time while the record still reaches (dt, n) (make_record asserts
+        that; a history that no longer does is a harness exception, i.e. not `fails`) and the op still fails"""
+        nonlocal hist
+        if hist is None:
+            return c2
+        steps = list(hist["steps"])
+        i = len(steps) - 1
+        while i >= 0 and len(steps) > 1:
+            cand = dict(hist, steps=steps[:i] + steps[i + 1:])
+            if fails(c2["ops"], cand):
+                steps = cand["steps"]
+                hist = cand
+            i -= 1
+        return dict(c2, history=hist)
 
     for k in (1, 2, 3):
         if len(ops) > k + 1:
             cand = ops[:1] + ops[-k:]
             if fails(cand):
-                return dict(c, ops=cand)
+                return shrink_history(dict(c, ops=cand))
     tries = 0
     changed = True
     while changed and tries < max_tries:
@@ -615,12 +757,12 @@ def shrink(ctx, c, kind, max_tries=8):
             if fails(cand):
                 ops = cand
                 changed = True
-    return dict(c, ops=ops)
+    return shrink_history(dict(c, ops=ops))
 
 
 def run_cases(ctx, cases, ex: Exploration, max_findings=4, do_shrink=True):
     flat = [l for c in cases for l in c["ops"]]
-    reals = [exec_real(c["ops"]) for c in cases]
+    reals = [exec_real(c["ops"], c.get("history")) for c in cases]
     resp = ctx.run_driver(DRIVER, flat)
     pos = 0
     nfound = 0
@@ -644,10 +786,11 @@ def run_cases(ctx, cases, ex: Exploration, max_findings=4, do_shrink=True):
             if rm.startswith("err"):
                 ex.count("errors", rm.split()[1] + ":" + t[0])
         ex.count("recordsz", c["ops"][0].split()[2])
+        ex.count("reached_by", c["history"]["kind"] if c.get("history") else "construction")
         ex.count("dt", str(float(num_p(c["ops"][0].split()[1], c["ops"][0].split()[6]))))
         if any(not rm.startswith(("err", "ok", "harness")) for (rm, _), l in zip(real, c["ops"]) if not l.startswith(("begin", "dump"))) \
                 or any(l.startswith("ins") and rm == "ok" for (rm, _), l in zip(real, c["ops"])):
-            ex.nontriv(tuple(c["ops"]))
+            ex.nontriv(tuple(c["ops"]) if not c.get("history") else (tuple(c["ops"]), repr(c["history"])))
         d = compare_case(c, real, r)
         if d is None:
             continue
@@ -660,14 +803,21 @@ def run_cases(ctx, cases, ex: Exploration, max_findings=4, do_shrink=True):
         small = dict(c, ops=c["ops"][: d[0] + 1])
         if do_shrink:
             small = shrink(ctx, small, d[1])
-        real2 = exec_real(small["ops"])
+        real2 = exec_real(small["ops"], small.get("history"))
         resp2 = ctx.run_driver(DRIVER, small["ops"])
         d2 = compare_case(small, real2, resp2) or d
         ex.findings.append(Finding(
             kind=d2[1], key=key_of(small, d2),
-            what=f"op `{small['ops'][d2[0]]}`: expected `{d2[2]}` observed `{d2[3]}`",
+            what=f"op `{small['ops'][d2[0]]}`: expected `{d2[2]}` observed `{d2[3]}`"
+                 + (f" (record created with dt, duration, inclusive = {small['history']['create']}, then re-assigned: "
+                    f"{small['history']['steps']})" if small.get("history") else ""),
             case={"ops": small["ops"], "rtol": small["rtol"], "stream": small["stream"], "index": d2[0],
                   "expected": d2[2], "observed": d2[3],
+                  **({"history": small["history"],
+                      "history_meaning": "the record was created with create=[dt, duration, inclusive] and then its public "
+                                         "attributes were re-assigned in the order of `steps` (push k = k pushes) before the "
+                                         "storage was filled; the `begin` line gives the resulting dt and record size"}
+                     if small.get("history") else {}),
                   "disagreement": "code vs specification" if d2[1] == "spec" else "code vs code-shaped model"}))
     return per_stream
 
@@ -690,9 +840,12 @@ def close_t(a: torch.Tensor, b_: torch.Tensor, rtol: float) -> bool:
 def relational(ctx, ex: Exploration, count: int):
     """(a) select: scalar time == tensor time filled with it (with and without the time axis);
     (b) insert: scalar time (both write modes) == tensor time filled with it;
-    (c) insert then select at the same time with a matching pair returns the inserted observation."""
+    (c) insert then select at the same time with a matching pair returns the inserted observation;
+    (d) dyadic configurations: a time is accepted iff it lies in [-tol, dt*(N-1)+tol] (closed form, exact).
+    Every other case runs on a record that reaches its (dt, N) by re-assignment of dt / duration / inclusive."""
     rng = ctx.rng
-    stats = {"select_scalar_vs_tensor": 0, "insert_scalar_vs_tensor": 0, "round_trip": 0}
+    stats = {"select_scalar_vs_tensor": 0, "insert_scalar_vs_tensor": 0, "round_trip": 0, "records_reached_by_reassignment": 0,
+             "acceptance_vs_closed_form": 0}
     found = 0
     for c in range(count):
         dyadic = rng.random() < 0.8
@@ -710,7 +863,14 @@ def relational(ctx, ex: Exploration, count: int):
             t = k * dt if rng.random() < 0.4 or n == 1 else (rng.randrange(n - 1) + rng.choice([0.1, 0.25, 0.5, 0.75, 0.9])) * dt
         off = rng.choice([0, 1, -1, 2, n])
         const = rng.choice([0.5, 1.0, 2.0, 20.0])
+        hist = random_history(rng, dt, n) if c % 2 else None      # every other case: (dt, n) reached by re-assignment
+        if hist is not None and dyadic and n > 1 and rng.random() < 0.5:   # lean on the upper range limit
+            hi_ = dt * (n - 1)
+            t = hi_ + rng.choice([0.0, tol, tol + 1 / 64, -tol, -dt / 4, -dt / 2, dt / 4, dt / 2, dt, -1 / 64, 2 * dt])
         desc = {"n": n, "ptr": ptr, "dt": dt, "tol": tol, "rows": rows, "t": t, "offset": off, "const": const}
+        if hist is not None:
+            desc["history"] = hist
+            stats["records_reached_by_reassignment"] += 1
 
         def report(rel, what, extra):
             nonlocal found
@@ -721,7 +881,7 @@ def relational(ctx, ex: Exploration, count: int):
 
         # (a)
         iname = rng.choice(list(INTERP))
-        owner_a, rt = make_record(n, ptr, rows, dt)
+        owner_a, rt = make_record(n, ptr, rows, dt, hist)
         try:
             rs = rt.select(t, INTERP[iname], tolerance=tol, offset=off, interp_kwargs=_kw(iname, const))
             es = None
@@ -741,13 +901,24 @@ def relational(ctx, ex: Exploration, count: int):
                 report("select_scalar_vs_tensor",
                        f"select({t}) scalar gives {es or rs.tolist()} but tensor time (D={D}) gives {eT or rT.tolist()} [{iname}]",
                        {"kernel": iname, "D": D})
+        # closed form of the accepted range (exact for the dyadic configurations): a time is accepted iff it lies in
+        # [-tol, dt*(N-1) + tol] for the record's CURRENT dt and N
+        accept = (-Fraction(tol) <= Fraction(t) <= Fraction(dt) * (n - 1) + Fraction(tol)) if dyadic else None
+        if accept is not None:
+            ex.evaluations += 1
+            stats["acceptance_vs_closed_form"] += 1
+            if accept != (es is None):
+                report("range_acceptance",
+                       f"select({t}) with dt={dt}, N={n}, tolerance={tol} " + ("raised ValueError" if es else f"returned {rs.tolist()}")
+                       + f" but the range [-tol, dt*(N-1)+tol] = [{-tol}, {dt * (n - 1) + tol}] " + ("contains" if accept else "does not contain") + " it",
+                       {"kernel": iname, "call": "select"})
         # (b) + (c)
         ename, iname2 = rng.choice(PAIRS)
         obs = torch.tensor([rng.randint(-40, 40) / 8 or 0.25 for _ in range(P)], dtype=T64)
         kw = _kw(ename, const)
         results = []
         for path in ("S-in", "S-out", "T-in", "T-out"):
-            owner, rt = make_record(n, ptr, rows, dt)
+            owner, rt = make_record(n, ptr, rows, dt, hist)
             time = t if path[0] == "S" else torch.full((P,), t, dtype=T64)
             try:
                 rt.insert(obs, time, EXTRAP[ename], tolerance=tol, offset=off, inplace=path.endswith("in"), extrap_kwargs=kw)
@@ -757,6 +928,14 @@ def relational(ctx, ex: Exploration, count: int):
         ex.evaluations += 4
         stats["insert_scalar_vs_tensor"] += 1
         v0 = results[0][1]
+        if accept is not None:
+            ex.evaluations += 1
+            stats["acceptance_vs_closed_form"] += 1
+            if accept != (not isinstance(v0, str)):
+                report("range_acceptance",
+                       f"insert at {t} with dt={dt}, N={n}, tolerance={tol} " + ("raised ValueError" if isinstance(v0, str) else "was accepted")
+                       + f" but the range [-tol, dt*(N-1)+tol] = [{-tol}, {dt * (n - 1) + tol}] " + ("contains" if accept else "does not contain") + " it",
+                       {"kernel": ename, "call": "insert", "obs": obs.tolist()})
         for path, v, _ in results[1:]:
             same = (isinstance(v0, str) and v == v0) or (not isinstance(v0, str) and not isinstance(v, str)
                                                           and close_t(v0, v, 0.0 if dyadic and ename not in INEXACT_EXTRAP else 1e-12))
@@ -847,7 +1026,14 @@ def explore(ctx) -> Exploration:
     flt = float_cases(rng, 300 if not thorough else 4000)
     rnd = random_cases(rng, 300 if not thorough else 5000) + random_cases(rng, 30 if not thorough else 400, big=True)
     nd = nondyadic_cases(rng, 100 if not thorough else 1500)
-    cases += sweep + ins + flt + rnd + nd
+    rec = attach_histories(rng, limit_probe_cases(rng, 5 if not thorough else 8)
+                           + select_sweep_cases(rng, 3 if not thorough else 5)
+                           + insert_cases(rng, 4 if not thorough else 6, 3 if not thorough else 8)
+                           + float_cases(rng, 60 if not thorough else 800)
+                           + random_cases(rng, 150 if not thorough else 2500)
+                           + random_cases(rng, 10 if not thorough else 150, big=True)
+                           + nondyadic_cases(rng, 40 if not thorough else 600))
+    cases += sweep + ins + flt + rnd + nd + rec
     per_stream = run_cases(ctx, cases, ex)
     relational(ctx, ex, 400 if not thorough else 8000)
     ex.extra["streams"] = per_stream
@@ -859,12 +1045,17 @@ def explore(ctx) -> Exploration:
                "every rational interpolation, scalar time and tensor time with and without the trailing time axis) + insert sweep "
                "(every rational extrapolation, scalar in-place/out-of-place and tensor paths, followed by dump = value + every read(k), and a "
                "select at the same time) + float-mode sequences with the exp kernels + seeded random sequences (n up to 8 and 14..20, "
-               "offsets in [-2n,2n], tolerances up to 1, 15%% out-of-range times) + a non-dyadic dt stream; plus relational checks on the real "
+               "offsets in [-2n,2n], tolerances up to 1, 15%% out-of-range times) + a non-dyadic dt stream + a `reconfigured` stream (a probe of both "
+               "range limits for every dyadic dt and n, and smaller editions of all the streams above, run on records that REACH the dt and "
+               "record size of their `begin` line by re-assignment of dt / duration / inclusive after construction — one attribute only, all "
+               "three with a chosen one last, random order, random intermediate values, pushes in between — judged by the same specification "
+               "of the resulting dt and N); plus relational checks on the real "
                "code (scalar vs tensor select/insert, insert-select round trip). A case is non-trivial when some select returned values "
                "or some insert succeeded on the real object; distinct = distinct protocol text" % (5 if not thorough else 8))
-    ex.samples = [sweep[5]["ops"][:6], ins[3]["ops"], flt[0]["ops"][:5], nd[0]["ops"][:4]]
+    ex.samples = [sweep[5]["ops"][:6], ins[3]["ops"], flt[0]["ops"][:5], nd[0]["ops"][:4],
+                  {"history": rec[0]["history"], "ops": rec[0]["ops"][:5]}]
     ex.extra["stream_sizes"] = {"corpus": ncorpus, "select_sweep": len(sweep), "insert_sweep": len(ins), "float_dyadic": len(flt),
-                                "random_sequences": len(rnd), "non_dyadic": len(nd)}
+                                "random_sequences": len(rnd), "non_dyadic": len(nd), "reconfigured": len(rec)}
     return ex
 
 
@@ -879,7 +1070,10 @@ def replay(ctx, data) -> int:
         print("replay file has no op sequence (proof/tie breakage without failing input):", data.get("broken"))
         return 1
     c = case(ops, fi.get("rtol", 0.0), fi.get("stream", "replay"))
-    real = exec_real(ops)
+    if fi.get("history"):
+        c["history"] = fi["history"]
+        print("record reached by:", fi["history"])
+    real = exec_real(ops, fi.get("history"))
     resp = ctx.run_driver(DRIVER, ops)
     for l, r, d in zip(ops, real, resp):
         print(f"{l}\n    real: M {r[0]} || S {r[1]}\n    lean: {d}")
